@@ -78,6 +78,7 @@ type State struct {
 	allocFn map[int]*ssa.Function
 	model   Model // a satisfying assignment of pc (nil: none cached)
 	stubCalls int
+	lastNow   []*Term
 	imprecise bool
 	unwind  int
 	splitLimit int
@@ -178,6 +179,7 @@ func (st *State) clone() *State {
 	}
 	n.choicePos = st.choicePos
 	n.stubCalls = st.stubCalls
+	n.lastNow = st.lastNow
 	n.inited = make(map[*ssa.Package]bool, len(st.inited))
 	for k, v := range st.inited {
 		n.inited[k] = v
